@@ -40,6 +40,9 @@ pub uninterp spec fn sp_h(v: ScramVersion, x: Seq<u8>) -> Seq<u8>;
 pub uninterp spec fn sp_hi(v: ScramVersion, password: Seq<char>, salt: Seq<u8>, iters: u32) -> Option<Seq<u8>>;
 pub uninterp spec fn sp_xor(a: Seq<u8>, b: Seq<u8>) -> Option<Seq<u8>>;
 
+pub const PEER_ITERATIONS_CEILING: u32 = 0x400_0000;
+//@@ type file=fe2o3-amqp/src/auth/scram/mod.rs kind=const name=MAX_SCRAM_ITERATIONS optional
+//@@ end
 pub open spec fn small(n: int) -> bool { n < 0x1_0000_0000 }
 pub open spec fn medium(n: int) -> bool { n < 0x100_0000_0000 }
 
@@ -242,6 +245,13 @@ impl ScramVersion {
         ensures (match r { Ok(x) => sp_hi(*self, password@, salt@, iterations) == Some(x@), Err(_) => sp_hi(*self, password@, salt@, iterations) is None }),
     { unimplemented!() }
 
+    /// `self.compute_salted_password(password, salt, iterations)` as the CLIENT calls it: `iterations` comes out of the server-first message, i.e. the peer chose it
+    #[verifier::external_body]
+    pub fn derive_with_peer_chosen_count(&self, password: &str, salt: &[u8], iterations: u32) -> (r: Result<Vec<u8>, ScramErrorKind>)
+        requires iterations <= PEER_ITERATIONS_CEILING,      // [C15.scram.peer-iteration-count-capped] the PBKDF2 iteration count a server announces decides how long the client computes (synchronously, on the runtime thread): `i=4294967295` in one 60-octet sasl-challenge kept the client busy for hours. The derivation runs only for a count below a ceiling (the check accepts any ceiling up to 2^26; deployments use 4096 .. a few 100 000)
+        ensures (match r { Ok(x) => sp_hi(*self, password@, salt@, iterations) == Some(x@), Err(_) => sp_hi(*self, password@, salt@, iterations) is None }),
+    { unimplemented!() }
+
 //@@ fn file=fe2o3-amqp/src/auth/scram/mod.rs impl=`impl ScramVersion` name=compute_server_signature
 //@@ generics
 //@@ nowhere
@@ -272,7 +282,7 @@ impl ScramVersion {
 //@@ subst `server_first.split(',').collect()` => `server_first.split_comma()` rule=R9
 //@@ subst `.parse()` => `.parse_u32()` rule=R9
 //@@ subst `|_v0| ScramErrorKind::IterationCountParseError` => `|_v0: ParseIntError| -> (o: ScramErrorKind) { ScramErrorKind::IterationCountParseError }` rule=R18
-//@@ subst `self.compute_salted_password::<ScramErrorKind>(` => `self.compute_salted_password(` rule=R7
+//@@ subst `self.compute_salted_password::<ScramErrorKind>(` => `self.derive_with_peer_chosen_count(` rule=R7
 //@@ subst `&salt[..]` => `salt.as_slice()` rule=R9
 //@@ subst `self.compute_client_proof::<ScramErrorKind>(` => `self.compute_client_proof(` rule=R7
 //@@ subst `self.compute_server_signature::<ScramErrorKind>(` => `self.compute_server_signature(` rule=R7
